@@ -5,7 +5,7 @@ CONSTANTS Names <- NamesMB Depth = 3 Vals <- ValsX Sep = 46 Design = "list" Base
   Routes <- RAll Cfgs <- CfgTNV SingleKinds <- SKBoth PrePaths <- PreC
   LoadKinds <- LoadB TwoFiles = TRUE EnvCalls <- EnvT ArgCalls <- ArgsT ClearLists <- ClearT
   MsgSets <- MSetT MsgGets <- MGetT NodeBases <- BasesT FputSeps <- None
-  MaxOps = 2 MaxArr = 2 SinglesFirst = FALSE Observe = FALSE
+  MaxOps = 2 MaxArr = 2 SingleWhen = "any" QuoteSet <- AllQuotes Observe = FALSE
 CONSTRAINT Bound
 VIEW ViewF
 INVARIANTS Refines PrefixClosed
